@@ -59,7 +59,8 @@ pub struct Bookkeeping {
     pub tx_out_heights: BTreeMap<OutP, u32>,
     pub tip_depths: Vec<u64>,
     pub announced: BTreeMap<Hash32, u32>,
-    pub announced_by_height: BTreeMap<u32, BTreeSet<Hash32>>,
+    /// None when the (derived) height index is not part of the serialised state
+    pub announced_by_height: Option<BTreeMap<u32, BTreeSet<Hash32>>>,
 }
 
 pub fn read_bookkeeping() -> Result<Bookkeeping, String> {
@@ -113,8 +114,9 @@ pub fn read_bookkeeping() -> Result<Bookkeeping, String> {
             announced.insert(h, height);
         }
     }
-    let mut announced_by_height: BTreeMap<u32, BTreeSet<Hash32>> = BTreeMap::new();
+    let mut announced_by_height: Option<BTreeMap<u32, BTreeSet<Hash32>>> = None;
     if let Some(Value::Map(m)) = field(nb, "height_to_hash") {
+        let announced_by_height = announced_by_height.insert(BTreeMap::new());
         for (k, val) in m {
             let height = as_u64(k).ok_or("height key")? as u32;
             let set = val
@@ -236,7 +238,7 @@ impl World {
         for (h, ht) in &model_ann {
             by_height.entry(*ht).or_default().insert(*h);
         }
-        if bk.announced_by_height != by_height {
+        if bk.announced_by_height.as_ref().map(|m| *m != by_height).unwrap_or(false) {
             return Err(violation("C20", "announced-height-index-inconsistent", "height index of announced headers differs from the hash index".into()));
         }
         let ah = self.anchor_height();
